@@ -28,7 +28,7 @@
                                                  flowMod_roundtrip (Match + instructions + actions nested); flowRemoved_roundtrip;
                                                  helloElem_roundtrip, hello_roundtrip (any number of elements), hello_default_roundtrip;
                                                  errorMsg_roundtrip; portStatus_roundtrip (+ phyPort_roundtrip); bundleProp_roundtrip (element);
-                                                 switchFeatures_roundtrip_noports / _partial (ports discarded)
+                                                 switchFeatures_roundtrip_noports / _partial (ports discarded); packetIn_roundtrip (opaque Ethernet frame)
 
   Where the round trip is FALSE in the model (= the Go code violates C05), the concrete counterexample is proved:
     actionMplsTtl_counterexample / actionNwTtl_counterexample / instrMeter_counterexample
@@ -61,6 +61,7 @@ import OFV.Lemmas.RTRegistry
 import OFV.Lemmas.RTFlowRemoved
 import OFV.Lemmas.RTMsgMore
 import OFV.Lemmas.RTSwitchFeatures
+import OFV.Lemmas.RTPacketIn
 namespace OFV.Props.C05
 open OFV OFV.Go OFV.Model OFV.RT
 
@@ -640,6 +641,28 @@ theorem switchFeatures_example :
     let bs : Bytes := [4, 6, 0, 32, 0, 0, 0, 7,  1, 2, 3, 4, 5, 6, 7, 8,  0, 0, 1, 0, 254, 0, 0, 0, 0, 0, 0, 79, 0, 0, 0, 0]
     SwitchFeatures.marshalM v = .ok (bs, v) ∧ parse 1 (Slice.exact bs) = .ok v :=
   ⟨rfl, rfl⟩
+
+/-- PacketIn through Parse (decoded into new(PacketIn)), the buffer holding exactly the message (the packet extends to the end
+    of the buffer).  Scalars inside their widths, `MatchWF m`, and ANY Ethernet frame that round-trips on its own
+    (`EthRT eth eb`, OFV/Lemmas/RTPacketIn.lean: encodes to `eb`, Len = |eb|, decodes from a buffer holding exactly `eb`) —
+    `ethRT_opaque` gives such frames: untagged, ethertype other than VLAN/IPv4/IPv6/ARP, raw payload bytes.
+    `MarshalBinary` stores the size in Header.Length; layout: header, 16 fixed bytes, match, 2 pad bytes, frame. -/
+theorem packetIn_roundtrip (ver xid b t r ti c : Nat) (m eth : V) (eb : Bytes)
+    (hver : ver < 256) (hxid : xid < 4294967296) (hb32 : b < 4294967296) (ht : t < 65536) (hr : r < 256) (hti : ti < 256)
+    (hc : c < 18446744073709551616) (hm : MatchWF m) (heth : EthRT eth eb) :
+    ∃ mbs, Match.marshalM m = .ok (mbs, m) ∧ (26 + mbs.length + eb.length < 65536 →
+      let L := 26 + mbs.length + eb.length
+      let bs := [n8 ver, n8 Gen.openflow13.Type_PacketIn] ++ be16 (n16 L) ++ be32 (n32 xid)
+        ++ (be32 (n32 b) ++ be16 (n16 t) ++ [n8 r, n8 ti] ++ be64 (n64 c)) ++ mbs ++ zeros 2 ++ eb
+      (∀ ln0, PacketIn.marshalM (packetInV ver ln0 xid b t r ti c m [] eth) = .ok (bs, packetInV ver L xid b t r ti c m [] eth)) ∧
+      ∀ (depth : Nat) (data : Slice), data.WF → data.bytes = bs →
+        parse depth data = .ok (packetInV ver L xid b t r ti c m [] eth)) :=
+  packetIn_rt ver xid b t r ti c m eth eb hver hxid hb32 ht hr hti hc hm heth
+
+/-- satisfiable: an LLDP-ethertype (0x88cc) frame with 5 raw bytes -/
+example : EthRT (ethOpaqueV [1, 2, 3, 4, 5, 6] [7, 8, 9, 10, 11, 12] 35020 [1, 2, 3, 4, 5])
+    ([1, 2, 3, 4, 5, 6] ++ [7, 8, 9, 10, 11, 12] ++ be16 (n16 35020) ++ [1, 2, 3, 4, 5]) :=
+  ethRT_opaque _ _ 35020 _ rfl rfl (by decide) (by decide) (by decide)
 
 /-- One hello element, followed by anything (the next element, …): `HelloElemVersionBitmap.UnmarshalBinary` reads the bitmaps
     up to the element's own Length (D20 bitmap part, fixed).  Element = type 1, Length = 4 + 4·#bitmaps (`helloElemV ws`),
